@@ -164,7 +164,12 @@ fn run<K: crate::gen::world::Kern<D>, const D: usize>(case: &Case, log: &mut Cas
                         let d = (w - v.coords[j]).abs();
                         d.min((case.periods[j] - d).abs()) <= 1e-7 * maxl * (D as f64 + 1.0)
                     });
-                    if near && (0..D).all(|j| v.coords[j] >= 0.0 && v.coords[j] < case.periods[j]) {
+                    // "displaced by the perturbation" needs an actual displacement: a coordinate stored
+                    // bit for bit as it was given although it lies outside the box was never wrapped
+                    let stored_unwrapped = (0..D).any(|j| v.coords[j].to_bits() == case.pts[i][j].to_bits() && !(case.pts[i][j] >= 0.0 && case.pts[i][j] < case.periods[j]));
+                    if stored_unwrapped {
+                        check_vertex(&case.pts[i], &v.coords, &case.periods, "constructed vertex", log);
+                    } else if near && (0..D).all(|j| v.coords[j] >= 0.0 && v.coords[j] < case.periods[j]) {
                         log.class("perturbed_vertex");
                     } else if near {
                         log.violate(Violation::new(ID, "perturbed_out_of_box", "constructed vertex", format!("input {:?} was wrapped and then displaced by the insertion perturbation to {:?}, outside the half-open box {:?}", case.pts[i], v.coords, case.periods)));
@@ -262,7 +267,10 @@ fn run<K: crate::gen::world::Kern<D>, const D: usize>(case: &Case, log: &mut Cas
                             let d = (w - c[j]).abs();
                             d.min((case.periods[j] - d).abs()) <= 1e-7 * maxl * (D as f64 + 1.0)
                         });
-                        if near && !(0..D).all(|j| c[j] >= 0.0 && c[j] < case.periods[j]) {
+                        let stored_unwrapped = (0..D).any(|j| c[j].to_bits() == p[j].to_bits() && !(p[j] >= 0.0 && p[j] < case.periods[j]));
+                        if stored_unwrapped {
+                            check_vertex(p, &c, &case.periods, "inserted vertex", log);
+                        } else if near && !(0..D).all(|j| c[j] >= 0.0 && c[j] < case.periods[j]) {
                             log.violate(Violation::new(ID, "perturbed_out_of_box", "inserted vertex", format!("input {:?} was wrapped and then displaced by the insertion perturbation to {:?}, outside the half-open box {:?}", p, c, case.periods)));
                         } else if !near {
                             check_vertex(p, &c, &case.periods, "inserted vertex", log);
